@@ -41,7 +41,12 @@ def run(ctx):
             target = ctx.rng.choice(names)
             if attr[1].endswith('class-names') or attr[1].endswith('dash-names'):
                 target = ' '.join(ctx.rng.sample(names, ctx.rng.randint(1, min(3, len(names)))))
+            ctx.rng._second = None
+            if ctx.rng.random() < 0.4:
+                a2 = ctx.rng.choice([a for a in allrefs if a != attr]); t2 = ctx.rng.choice(names)
+                ctx.rng._second = (a2, t2); refs.append((where, a2[1], t2))
             DC.add_reference(ctx.rng, doc, names, where, attr, target)
+            ctx.rng._second = None
             refs.append((where, attr[1], target))
         case = {'styles': names, 'references': refs}
         autos_t = X.walk_real(doc.automaticstyles)
@@ -64,17 +69,19 @@ def run(ctx):
             written = [k for k in DC.__dict__['X'].canon(t[1])[3] if k[0] == 'E' and k[1][1] == 'automatic-styles']
             wl = written[0][3] if written else []
             wnames = [dict((tuple(a), v) for a, v in s[2]).get((STY, 'name')) for s in wl if s[0] == 'E']
-            defined = set(dict((tuple(a), v) for a, v in s[2]).get((STY, 'name')) for s in autos_t[3] if s[0] == 'E')
-            missing = sorted((need & defined) - set(wnames))
+            key = lambda s: (s[1][1], dict((tuple(a), v) for a, v in s[2]).get((STY, 'family')), dict((tuple(a), v) for a, v in s[2]).get((STY, 'name')))
+            wkeys = [key(s) for s in wl if s[0] == 'E']
+            # every automatic style (of whatever kind) bearing a needed name must be there
+            missing = sorted(str(key(s)) for s in autos_t[3] if s[0] == 'E' and key(s)[2] in need and key(s) not in wkeys)
             if missing:
-                via = sorted(set(a for w, a, tg in refs if any(m_ in tg.split() for m_ in missing)))
+                via = sorted(set(a for w, a, tg in refs if any(tk in m_ for m_ in missing for tk in tg.split())))
                 ctx.violation('referenced-style-not-written', dict(case, part=part), {'missing': missing}, 'every needed automatic style in ' + part,
                               {'via': via if via else ['(transitively)']})
-            dup = sorted(set(x for x in wnames if wnames.count(x) > 1))
+            dup = sorted(set(str(x) for x in wkeys if wkeys.count(x) > 1))
             if dup: ctx.violation('style-written-twice', dict(case, part=part), dup, 'at most once per part', {})
-            src_by_name = {dict((tuple(a), v) for a, v in s[2]).get((STY, 'name')): X.canon(s) for s in autos_t[3] if s[0] == 'E'}
+            src_by_name = {key(s): X.canon(s) for s in autos_t[3] if s[0] == 'E'}
             for s in wl:
-                nm = dict((tuple(a), v) for a, v in s[2]).get((STY, 'name')) if s[0] == 'E' else None
+                nm = key(s) if s[0] == 'E' else None
                 if nm in src_by_name and X.canon(s) != src_by_name[nm]:
                     ctx.violation('style-definition-changed', dict(case, part=part, style=nm), s, src_by_name[nm], {})
         if any((a[0].split(':')[-2] if ':' in a[0] else a[0], a[1]) not in old11 for a in [(x[0], x[1]) for x in allrefs if x[1] in [r[1] for r in refs]]) or any(w.startswith('auto:') for w, _, _ in refs):
